@@ -349,6 +349,21 @@ def rules(ctx):
                  "N == 0 returns num_anneals results ({}, model.offset, spin)" if ok0 else
                  "the variable-free branch does not return num_anneals results AnnealResult({}, model.offset, True)")
         # ------------------------------------------------------------ R11.7
+        if name == 'anneal_quso':
+            # the property itself: None (not 0) for a model without variables - 0 is the index of a real variable
+            mi = P.func('PUBOMatrix.max_index')
+            rets_ = [r for r in walk_no_nested(strip_docstring(mi.node.body)) if isinstance(r, ast.Return)]
+            oke = False
+            for r in rets_:
+                v = r.value
+                if isinstance(v, ast.IfExp) and (is_const(v.orelse, None) or is_const(v.body, None)):
+                    oke = True
+                if v is None or is_const(v, None):
+                    oke = True
+            ctx.inst('R11.7', mi, rets_[0] if rets_ else 'def max_index', oke,
+                     "max_index is None for a model without variables" if oke else
+                     "max_index does not return None for a model without variables: an empty Matrix model is annealed as if it "
+                     "had the variable 0")
         for x in ('%s.max_index' % arg,):
             uses = nullness.optional_uses(fn.node, x)
             for use, what in uses:
